@@ -174,6 +174,7 @@ func scenariosFor(tier string) []vrt.Scenario {
 	a2 := map[string]string{"VERIF_A": "y", "VERIF_C": "y"}
 	cfgs := []cfg{
 		{"distinct-keys", []stageCfg{{0, a}, {0, b}}, -1, 0, false},
+		{"empty-parameter-value", []stageCfg{{0, a}, {0, map[string]string{"VERIF_A": "", "VERIF_B": "2"}}, {0, map[string]string{"VERIF_C": ""}}}, -1, 0, false},
 		{"two-runs-of-one-trigger", []stageCfg{{0, a}, {0, ab1}}, -1, 0, true},
 		{"two-runs-of-one-trigger/first-cut-short", []stageCfg{{0, a}, {0, ab1}}, 350 * time.Millisecond, 0, true},
 		{"overlapping-keys", []stageCfg{{0, ab1}, {0, a2}}, -1, 0, false},
